@@ -83,7 +83,7 @@ G_Q == {0, 2}
 G_T == {0, 1, 3}
 K_None == {}
 K_Q == {0, 1, 2}
-K_T == {0, 1, 2, 3}
+K_T == {0, 1, 3}
 
 (* balanced reactions over substances with compositions, for the upper bounds *)
 SpeciesB == <<"H2", "H2O", "H2O2", "O2", "OH-", "e-">>
